@@ -1831,8 +1831,8 @@ class QuadraticForm(Functional):
         elif self.vector is None:
             return x.inner(self.operator(x)) + self.constant
         else:
-            tmp = self.operator(x)
-            tmp += self.vector
+            # Not in-place: the operator may return `x` itself or a view of it
+            tmp = self.operator(x) + self.vector
             return x.inner(tmp) + self.constant
 
     @property
